@@ -3191,6 +3191,12 @@ def _live_state(ctx: Ctx, fi: FuncInfo, e: ast.AST, depth: int = 4) -> bool | No
     if isinstance(e, ast.Call) and isinstance(e.func, ast.Attribute) and e.func.attr in ("values", "items", "keys") and not e.args \
             and isinstance(strip_cast(e.func.value), ast.Attribute) and strip_cast(e.func.value).attr == "nodes":
         return False                                                      # the whole node table of a bucket
+    if isinstance(e, ast.DictComp) and isinstance(e.value, ast.Name):
+        # {key: node for node in ... if ...}: the nodes are the values of the mapping (a collection of nodes identified by the key)
+        g_ = ast.GeneratorExp(elt=e.value, generators=e.generators)
+        ast.copy_location(g_, e)
+        g_._parent = getattr(e, "_parent", None)
+        e = g_
     if isinstance(e, _COMPS):
         if not isinstance(e.elt, ast.Name) or any(g.is_async for g in e.generators):
             return None
@@ -3435,6 +3441,9 @@ def _ranked_prefix(ctx: Ctx, fi: FuncInfo, cfg, ret: ast.Return, target: str, k:
                 src = _strip_collection_wrap(strip_cast(v.args[0]))
             else:
                 break
+        if isinstance(src, ast.Call) and isinstance(src.func, ast.Attribute) and src.func.attr == "values" and not src.args and not src.keywords \
+                and isinstance(strip_cast(src.func.value), ast.Name) and strip_cast(src.func.value).id not in fi.params():
+            src = strip_cast(src.func.value)                              # a local mapping id -> node: its values are the collection
         return src.id if isinstance(src, ast.Name) else None              # the collection's own name (not what it was initialised with)
 
     v = resolve(fi, ret.value) if ret.value is not None else None
